@@ -42,10 +42,37 @@ def run(run):
         # "after stop() is accepted ... the actor finishes": stop() must really enqueue its marker
         # (waiting send on self.sender), otherwise an accepted stop can be lost
         sendrules.stop_marker(run, f, sendpaths.get(f), rule="O7.3")
+        no_starvation(run, lc)
         upgrade_table(run, f)
         # O7.3: closed channel / stop marker => on_stop(false), Completed{killed:false}
         c04.check_lifecycle(run, lc)
         c05.exit_table(run, lc)
+
+
+def no_starvation(run, lc):
+    """O7.6: an accepted stop marker (or the closing of the channels) can only end the actor if the loop gets to poll
+    the receivers. Under `biased;` a branch polling user code (on_run) that precedes a receiver branch starves it whenever
+    the user future is ready at every poll; a precondition on the mailbox branch can disable it altogether."""
+    s = lc.select
+    if not run.require(s is not None and "error" not in s, "O7.6", "select-site", "cannot parse the select! of the lifecycle loop", "one select! site"):
+        return
+    loc = lc.loc(lc.poll_fn_bb)
+    kinds = [b["kind"] for b in lc.sel_branches]
+    br = s["branches"]
+    user = [i for i, k in enumerate(kinds) if k not in ("recv_ctrl", "recv_mailbox")]
+    for want in ("recv_ctrl", "recv_mailbox"):
+        idx = [i for i, k in enumerate(kinds) if k == want]
+        if not run.require(len(idx) == 1, "O7.6", "receiver-branch:%s" % want, "the select! has %d %s branches" % (len(idx), want), "one %s branch" % want, loc=loc):
+            continue
+        i = idx[0]
+        starved = s["biased"] and any(u < i for u in user)
+        run.require(not starved, "O7.6", "receiver-not-starved:%s" % want,
+                    "under `biased;` branch %d (%s) is polled only after %s: a user future that is ready at every poll starves it, so an accepted stop / the last reference going away never ends the actor"
+                    % (i, want, [kinds[u] for u in user if u < i]), "%s is polled before every user-code branch (or the select is fair)" % want, loc=loc)
+    mi_ = [i for i, k in enumerate(kinds) if k == "recv_mailbox"]
+    if mi_ and mi_[0] < len(br):
+        run.require("cond" not in br[mi_[0]], "O7.6", "mailbox-branch-unconditional", "the mailbox branch has a precondition `%s` (a queued stop marker would not be dequeued while it is false)" % br[mi_[0]].get("cond"),
+                    "mailbox branch unconditional", loc=loc)
 
 
 def select_yield_blocks(lc):
